@@ -93,7 +93,7 @@ Init == /\ tid \in 1..Len(Traces) /\ l = 1 /\ TLCSet(tid, 1)
         /\ LET c == Traces[tid].cfg IN
            InitWith([cc |-> c.cc, mss |-> c.mss, size |-> c.size],
                     L(c.cwnd, c.cx), L(c.ssth, c.sx), L(c.srtt, c.tx), L(c.rttvar, c.tx), L(c.rto, c.tx),
-                    CubAt(c), <<0, 0>>)
+                    CubAt(c), <<0, 0>>, c.buf)
 More == l <= Len(Tr)
 Here == More /\ (now = T \/ (Ev.t = 0 /\ now = <<0, 0>>))
 Consume == l' = l + 1 /\ UNCHANGED tid
@@ -102,18 +102,20 @@ Keep == UNCHANGED <<tid, l>>
 \* the logged public state is the specification's state (after an event that must not change it)
 SameWindow == Cw = cwnd /\ Ss = ssth /\ Cb = cub
 SameRtt == Sr = srtt /\ Rv = rttvar
-SameSeq == Ev.la = la /\ Ev.ns = ns
+SameSeq == Ev.la = la /\ Ev.ns = ns /\ Ev.buf = buf
 Floor == FMayLe(FN(MSS), Cw)           \* cwnd never below one MSS, at every record
 
-\* a new segment on the output (the tap sits in out.put, before next_seq moves)
+\* a new segment on the output (the tap sits in out.put, before next_seq moves): the record carries the public
+\* state read inside the tap, i.e. at the moment of sending; it must be the specification's state (SameWindow:
+\* every change of cwnd since the last record needs its own accepted event) and Send's guard is evaluated on it
 SendEv == /\ Here /\ Ev.e = "S"
           /\ Ev.seq = ns /\ Ev.size = MSS
           /\ SameWindow /\ SameRtt /\ Ro = rto /\ SameSeq /\ Ev.dup = dup
-          /\ Send(Ev.buf) /\ Consume
+          /\ Send /\ Consume
 NewAckEv == /\ Here /\ Ev.e = "A" /\ Ev.ackno > la
             /\ Ev.nrx = 0 /\ Ev.seq = -1
             /\ NewAck(Ev.ackno, L(Ev.rtt, Ev.rx), Cw, Cb, Sr, Rv, Ro)
-            /\ Ss = ssth /\ Ev.dup = 0 /\ Ev.la = Ev.ackno /\ Ev.ns = ns /\ Floor /\ Consume
+            /\ Ss = ssth /\ Ev.dup = 0 /\ Ev.la = Ev.ackno /\ Ev.ns = ns /\ Ev.buf = buf /\ Floor /\ Consume
 DupAckEv == /\ Here /\ Ev.e = "A" /\ Ev.ackno = la
             /\ Ev.nrx <= 1 /\ (Ev.nrx = 1 => Ev.seq = la)
             /\ DupAck(Cw, Ss, Cb, Ev.nrx = 1)
@@ -124,8 +126,11 @@ TimeoutEv == /\ Here /\ Ev.e = "T" /\ Ev.nrx = 1
 QuietEv == /\ Here /\ Ev.e = "Q"
            /\ SameWindow /\ SameRtt /\ Ro = rto /\ SameSeq /\ Ev.dup = dup
            /\ UNCHANGED svars /\ Consume
+\* application data arrived since the previous record (silent: bound through the logged send_buffer).  It comes
+\* before the event that reports it, so a Send is judged on the buffer AND the window as they are at that moment.
+AppDataEv == More /\ Ev.buf > buf /\ AppData(Ev.buf) /\ Keep
 TickEv == More /\ now # T /\ ~(Ev.t = 0 /\ now = <<0, 0>>) /\ TickTo(T) /\ Keep
-Next == SendEv \/ NewAckEv \/ DupAckEv \/ TimeoutEv \/ QuietEv \/ TickEv
+Next == AppDataEv \/ SendEv \/ NewAckEv \/ DupAckEv \/ TimeoutEv \/ QuietEv \/ TickEv
 Spec == Init /\ [][Next]_vars
 
 Mark == TLCSet(tid, IF l > TLCGet(tid) THEN l ELSE TLCGet(tid))
